@@ -78,7 +78,25 @@ def sequence_spec(rng: random.Random, n: int, wf_kind: str, phase_kind: str, dmm
     return spec
 
 
+def add_local_phase(rng: random.Random, spec: dict, d: int = 10, amp_scale: float = 8.0) -> dict:
+    """Append two pulses of a rydberg_local channel (two different targets) after the global pulses: every atom is still driven by
+    the global channel, so no atom is without samples; the default min-delay protocol keeps the local pulses after the global ones."""
+    n = len(spec["coords"])
+    ids = [f"q{i}" for i in range(n)]
+    a = rng.randrange(n)
+    b = rng.choice([j for j in range(n) if j != a]) if n > 1 else a
+    spec["channels"]["loc"] = "rydberg_local"
+    spec.setdefault("initial_target", {})["loc"] = ids[a]
+    ph = rng.choice([0.0, rng.uniform(0.2, 3.0)])
+    spec["ops"].append({"op": "add", "ch": "loc", "pulse": {"amp": _wf(rng, "const", d, amp_scale, True), "det": _wf(rng, "const", d, 4.0, False), "phase": ph}})
+    spec["ops"].append({"op": "target", "ch": "loc", "q": ids[b]})
+    spec["ops"].append({"op": "add", "ch": "loc", "pulse": {"amp": _wf(rng, "ramp", d, amp_scale, True), "det": _wf(rng, "const", d, 4.0, False), "phase": ph}})
+    return spec
+
+
 def spec_duration(spec: dict) -> int:
+    if len(spec["channels"]) > 1:
+        return int(seqs.build_sequence(spec).get_duration())
     return sum(seqs.wf_duration(o["pulse"]["amp"]) for o in spec["ops"] if o["op"] == "add")
 
 
